@@ -320,6 +320,8 @@ impl<T: Flt> Sys for Tracked<T> {
         h.word(self.trk.r_cur.to_bits());
         h.word(self.trk.r_tgt.to_bits());
         h.word(self.trk.chunk as u64);
+        h.word(self.trk.dirty as u64);
+        h.word(self.trk.last_mask as u64);
         h.0
     }
 }
